@@ -75,7 +75,7 @@ void end_run()
     G.running      = false;
     G.icv_nthreads = 1;
     G.cfg.policy   = POL_RR;
-    G.st.sim_time_ns = G.clock_ns - 1700000000ull * 1000000000ull;
+    // simulated time covered = what the discrete clock advanced by itself (injected jumps are faults, not covered time)
 }
 const Config& config() { return G.cfg; }
 Stats& stats() { return G.st; }
@@ -100,6 +100,7 @@ void clock_advance(uint64_t ns)
 {
     if (!G.clock_frozen)
         G.clock_ns += ns;
+    G.st.sim_time_ns += ns;
 }
 void clock_fault_jump(int64_t ns) { G.clock_ns = (uint64_t)((int64_t)G.clock_ns + ns); }
 void clock_fault_freeze(bool on) { G.clock_frozen = on; }
